@@ -560,11 +560,62 @@ func mutants(root map[string]any, plan []planItem) []mutant {
 	return out
 }
 
+// crashCLI, when set, is the gobl command: a sample of the mutants is also given to it as files
+var (
+	crashCLI     string
+	crashCLIEach = 25
+)
+
+// runCLI gives one input to the gobl command and classifies what comes back: a result (exit 0) or a
+// well-formed JSON error on stderr (code plus key, message or fields)
+func runCLI(dir string, n int, action string, data []byte) (string, string) {
+	file := filepath.Join(dir, fmt.Sprintf("cli-input-%d.json", n%4))
+	if err := os.WriteFile(file, data, 0o644); err != nil {
+		return "skipped", err.Error()
+	}
+	args := []string{action, file}
+	switch action {
+	case "correct":
+		args = []string{"correct", "-d", `{"type":"credit-note","reason":"x"}`, file}
+	case "correct-options":
+		args = []string{"correct", "--options", file}
+	}
+	cmd := exec.Command(crashCLI, args...)
+	var stderr bytes.Buffer
+	cmd.Stderr = &stderr
+	_, err := cmd.Output()
+	if err == nil {
+		return "ok", ""
+	}
+	se := stderr.String()
+	if p := strings.Index(se, "panic:"); p >= 0 {
+		return "panic", siteFromStack(se[p:])
+	}
+	if strings.Contains(se, "fatal error:") {
+		return "no-response", "fatal error"
+	}
+	var e struct {
+		Code    int    `json:"code"`
+		Key     string `json:"key"`
+		Message string `json:"message"`
+		Fields  any    `json:"fields"`
+	}
+	if json.Unmarshal([]byte(se), &e) != nil || e.Code == 0 || (e.Key == "" && e.Message == "" && e.Fields == nil) {
+		m := se
+		if len(m) > 120 {
+			m = m[:120]
+		}
+		return "malformed-error", m
+	}
+	return "error", ""
+}
+
 func crashRun(repo, planFile string, seed int64, capPerDoc, nbytes int, bulkBin, out string) error {
 	w, err := tr.NewWriter(out)
 	if err != nil {
 		return err
 	}
+	var cliDone []int
 	var plan []planItem
 	err = tr.ReadLines(planFile, func(line []byte) error {
 		var p planItem
@@ -629,6 +680,12 @@ func crashRun(repo, planFile string, seed int64, capPerDoc, nbytes int, bulkBin,
 		}
 		for i, m := range ms {
 			m := m
+			if crashCLI != "" && (i%crashCLIEach == 0 || (m.mut == "schema-swap" && i%4 == 0)) {
+				action := []string{"build", "validate", "correct", "replicate", "correct-options"}[len(cliDone)%5]
+				o, msg := runCLI(filepath.Dir(out), len(cliDone), action, m.data)
+				cliDone = append(cliDone, 1)
+				w.Emit(crashEvent{K: "bulk", Src: name, Mut: m.mut, Path: m.path, Steps: []crashStep{{Op: "cli-" + action, Out: o, Msg: msg}}})
+			}
 			if m.bulkOnly {
 				bulkInputs = append(bulkInputs, m)
 				bulkSrc = append(bulkSrc, name)
@@ -831,8 +888,10 @@ func init() {
 		bulk := fs.String("bulk", "", "goblverif binary")
 		out := fs.String("out", "", "events ndjson")
 		cur := fs.String("cur", "", "file that always holds the input being processed")
+		cli := fs.String("cli", "", "gobl command: a sample of the mutants is given to it too")
+		cliEach := fs.Int("cli-every", 25, "one mutant in this many goes to the command line")
 		fs.Parse(args)
-		crashCur = *cur
+		crashCur, crashCLI, crashCLIEach = *cur, *cli, *cliEach
 		return crashRun(*repo, *plan, *seed, *capd, *nb, *bulk, *out)
 	})
 	// crash-one: the pipeline on one input (replay of an input that aborted the process)
